@@ -32,6 +32,7 @@ import (
 	"io"
 	"net"
 	"net/netip"
+	"slices"
 	"sync"
 	"testing"
 	"time"
@@ -246,6 +247,11 @@ func c19Gen(t *rapid.T) c19Case {
 		d := c19Dir{
 			Ops:   rapid.SliceOfN(op, 0, 10).Draw(t, "ops"),
 			Reads: rapid.SliceOfN(rapid.SampledFrom([]int{1, 2, 3, 17, 100, 1000, 1200, 4096, 65536}), 1, 4).Draw(t, "reads"),
+		}
+		if pct("tail") < 20 {
+			// everything flushed (and probably acknowledged) before the close: the FIN
+			// then travels alone in an empty STREAM frame
+			d.Ops = append(d.Ops, c19Op{K: "flush"}, c19Op{K: "sleep", N: rapid.SampledFrom([]int{1, 30, 400}).Draw(t, "tailms")})
 		}
 		d.Ops = append(d.Ops, c19Op{K: rapid.SampledFrom([]string{"closewrite", "close", "close"}).Draw(t, "fin")})
 		if pct("pause") < 20 {
@@ -541,16 +547,26 @@ func (x *c19Run) goFunc(name string, f func()) {
 // writer's Close returned nil.
 func (x *c19Run) peerHasAll(d *c19DirRun) string {
 	pc := x.conn[1-d.from]
-	x.mu.Lock()
-	ps := x.accepted[1-d.from][d.id]
-	x.mu.Unlock()
+	lookup := func() *Stream {
+		x.mu.Lock()
+		defer x.mu.Unlock()
+		return x.accepted[1-d.from][d.id]
+	}
+	ps := lookup()
+	var lerr error
 	if ps == nil {
-		pc.runOnLoop(context.Background(), func(now time.Time, c *Conn) {
+		// Not handed to the peer's application yet: look into the peer's conn.
+		lerr = pc.runOnLoop(context.Background(), func(now time.Time, c *Conn) {
 			ps = c.streams.streams[d.id].s
 		})
 	}
 	if ps == nil {
-		return "the peer does not know the stream"
+		// The application may have accepted, finished and closed it meanwhile
+		// (which removes it from the conn); it is registered before that happens.
+		ps = lookup()
+	}
+	if ps == nil {
+		return fmt.Sprintf("the peer does not know the stream (peer conn: %v, %v)", lerr, pc.lifetime.finalErr)
 	}
 	ps.ingate.lock()
 	insize := ps.insize
@@ -563,6 +579,38 @@ func (x *c19Run) peerHasAll(d *c19DirRun) string {
 		return fmt.Sprintf("the peer has received bytes [0,%d) and final size %d of a %d-byte stream", have, insize, d.want)
 	}
 	return ""
+}
+
+// diag describes the sending state of a stalled direction (diagnostics only).
+func (x *c19Run) diag(d *c19DirRun) string {
+	x.mu.Lock()
+	ws := x.accepted[d.from][d.id]
+	rs := x.accepted[1-d.from][d.id]
+	x.mu.Unlock()
+	out := ""
+	if ws != nil {
+		ws.outgate.lock()
+		out += fmt.Sprintf("sender stream: out=[%d,%d) flushed=%d win=%d maxsent=%d unsent=%v acked=%v closed=%#x blocked=%#x reset=%v state=%#x",
+			ws.out.start, ws.out.end, ws.outflushed, ws.outwin, ws.outmaxsent, ws.outunsent, ws.outacked, uint64(ws.outclosed), uint64(ws.outblocked), ws.outreset.isSet(), ws.state.load())
+		ws.outUnlock()
+		c := x.conn[d.from]
+		c.runOnLoop(context.Background(), func(now time.Time, c *Conn) {
+			ls := &c.loss
+			out += fmt.Sprintf("; sender conn: outflow=%d/%d cwnd=%d inflight=%d recovery=%v underutilized=%v pto(armed=%v expired=%v backoff=%d) timer=%v inflightpkts=%d..%d state=%v",
+				c.streams.outflow.used, c.streams.outflow.max, ls.cc.congestionWindow, ls.cc.bytesInFlight, ls.cc.inRecovery, ls.cc.underutilized,
+				ls.ptoTimerArmed, ls.ptoExpired, ls.ptoBackoffCount, ls.timer.Sub(now), ls.spaces[appDataSpace].start(), ls.spaces[appDataSpace].end(), c.lifetime.state)
+		})
+	}
+	if rs != nil {
+		rs.ingate.lock()
+		out += fmt.Sprintf("; receiver stream: in=[%d,%d) inbuf=%d/%d win=%d maxbuf=%d size=%d set=%v sendmax=%#x", rs.in.start, rs.in.end, rs.inbufoff, len(rs.inbuf), rs.inwin, rs.inmaxbuf, rs.insize, rs.inset, uint64(rs.insendmax))
+		rs.inUnlock()
+		c := x.conn[1-d.from]
+		c.runOnLoop(context.Background(), func(now time.Time, c *Conn) {
+			out += fmt.Sprintf("; receiver conn: inflow sent=%#x state=%v", uint64(c.streams.inflow.sent), c.lifetime.state)
+		})
+	}
+	return out
 }
 
 func (x *c19Run) writer(d *c19DirRun, s *Stream, early bool, ownReader <-chan struct{}) {
@@ -891,6 +939,21 @@ func c19RunCase(t *testing.T, c c19Case, r *vp.Rec) (err error) {
 		default:
 		}
 	}
+	stallInfo := ""
+	if stalled {
+		for _, d := range x.dirs {
+			if d != nil && !d.prefix {
+				select {
+				case <-d.rdone:
+				default:
+					stallInfo = x.diag(d)
+				}
+			}
+			if stallInfo != "" {
+				break
+			}
+		}
+	}
 	var freezeErr error
 	if frozen {
 		// The network is dead from now on. The peer must already hold the whole stream.
@@ -941,8 +1004,8 @@ func c19RunCase(t *testing.T, c c19Case, r *vp.Rec) (err error) {
 		}
 		if stalled {
 			if !d.eof {
-				return fmt.Errorf("%s: stalled: reader has %d of %d bytes (eof=%v, err=%v), writer wrote %d (err=%v, started=%v) and no fault was applied for %v of fake time; faults applied: %v",
-					d.name, d.rpos, d.want, d.eof, d.rerr, d.wrote, d.werr, d.wstarted, c19Quiet, x.net.hurt)
+				return fmt.Errorf("%s: stalled: reader has %d of %d bytes (eof=%v, err=%v), writer wrote %d (err=%v, started=%v) and no fault was applied for %v of fake time; faults applied: %v; %s",
+					d.name, d.rpos, d.want, d.eof, d.rerr, d.wrote, d.werr, d.wstarted, c19Quiet, x.net.hurt, stallInfo)
 			}
 			continue
 		}
@@ -981,7 +1044,7 @@ func c19RunCase(t *testing.T, c c19Case, r *vp.Rec) (err error) {
 	if len(c.Streams) >= 2 {
 		r.Class("multi-stream")
 	}
-	small, big, bidi, uni, closes, early := false, false, false, false, false, false
+	small, big, bidi, uni, closes, early, finonly := false, false, false, false, false, false, false
 	for _, k := range []c19Cfg{c.Cli, c.Srv} {
 		if k.SR != 0 || k.SW != 0 || k.CR != 0 {
 			small = true
@@ -1007,8 +1070,11 @@ func c19RunCase(t *testing.T, c c19Case, r *vp.Rec) (err error) {
 		if d.closed && d.closeErr == nil {
 			closes = true
 		}
+		if n := len(d.spec.Ops); n >= 3 && d.want > 0 && d.spec.Ops[n-2].K == "sleep" && d.spec.Ops[n-3].K == "flush" {
+			finonly = true
+		}
 	}
-	for name, on := range map[string]bool{"small-buffers": small, "transfer>=20KB": big, "bidi": bidi, "uni": uni, "close-nil": closes, "early-close": early, "freeze": frozen} {
+	for name, on := range map[string]bool{"small-buffers": small, "transfer>=20KB": big, "bidi": bidi, "uni": uni, "close-nil": closes, "early-close": early, "freeze": frozen, "fin-in-own-frame": finonly} {
 		if on {
 			r.Class(name)
 		}
@@ -1017,6 +1083,31 @@ func c19RunCase(t *testing.T, c c19Case, r *vp.Rec) (err error) {
 		r.NonTrivial()
 	}
 	return nil
+}
+
+// c19Known: known finding c19-closeread-stale-fastpath-buffer. Close on a bidirectional
+// stream whose own reader still has received-but-unread bytes in the stream's fast-path
+// read buffer corrupts the stream's receive offsets; the connection then dies with
+// FINAL_SIZE_ERROR. That buffer only ever exists if some Read used a buffer smaller than
+// the data available, so the predicate is: a side closes early and the direction towards
+// it carries more bytes than its smallest read buffer.
+func c19Known(c c19Case) string {
+	c = c19Norm(c)
+	for _, s := range c.Streams {
+		var in c19Dir
+		switch s.Early {
+		case 1:
+			in = s.Rev
+		case 2:
+			in = s.Fwd
+		default:
+			continue
+		}
+		if in.total() > slices.Min(in.Reads) {
+			return "c19-closeread-stale-fastpath-buffer"
+		}
+	}
+	return ""
 }
 
 func c19Prop(c c19Case, r *vp.Rec) error {
@@ -1029,5 +1120,5 @@ func c19Prop(c c19Case, r *vp.Rec) error {
 }
 
 func TestVP_C19(t *testing.T) {
-	vp.Run(t, vp.Spec[c19Case]{ID: "C19", CrashFile: true, Gen: c19Gen, Prop: c19Prop})
+	vp.Run(t, vp.Spec[c19Case]{ID: "C19", CrashFile: true, Gen: c19Gen, Prop: c19Prop, Known: c19Known})
 }
